@@ -28,6 +28,7 @@ def cases(draw, tier="quick"):
     big = draw(st.integers(0, 5)) == 0      # now and then more instances per class and higher cardinalities
     g = draw(gg.general(max_nodes=12 if big else 7, max_stmts=48 if big else 30, inst_props=(RDF_TYPE, RDF_TYPE, RDF_TYPE, "http://ex.org/isA", gg.INST_PROPS[2])))
     cfg = draw(gg.switches())
+    cfg.update(draw(gg.harmless_extras()))
     cfg["instances_report_mode"] = draw(st.sampled_from(["mixed", "mixed", "mixed", "mixed", "ratio", "abs"]))
     d = draw(st.sampled_from([-1, -1, -1, -1, 2, 5, 1]))
     if d != -1:
